@@ -118,8 +118,9 @@ Expect(ev) ==
             ELSE IF ~TargetsOK(w, FltTargets(flt))
             THEN (IF ev.mode = "typed" /\ ~TargetsOK(w, flt.qt)
                   THEN R(FALSE, w, {})     \* a removed entity named as per-query target: rejected, nothing changes
-                  \* a long-lived filter whose fixed target died after it was built, or the ID-based API: not regulated
-                  ELSE [def |-> FALSE, pre |-> TRUE, w2 |-> w, foot |-> {}])
+                  \* a long-lived filter whose fixed target died after it was built, or the ID-based API: the call may be
+                  \* rejected; if it is accepted the query selects nothing (no alive entity has a dead target: C03, C04)
+                  ELSE R(~ev.panic, DoQOpen(w, ev.q, flt), {}))
             ELSE R(TRUE, DoQOpen(w, ev.q, flt), {})
       [] ev.op = "QNext" ->
             IF ev.q \notin DOMAIN w.open THEN [def |-> FALSE, pre |-> TRUE, w2 |-> w, foot |-> {}]
@@ -399,7 +400,11 @@ CheckProbe(ev) ==
                  ELSE {[v EXCEPT !.cls = "C13.result"] : v \in vMissing \cup vExtra \cup vDupl \cup vData \cup vCount \cup vPanic}
                       \cup (IF ev.at # <<>> /\ Bag(ev.at) # Bag(es) THEN {V("C13.result", <<"EntityAt", ev.at>>)} ELSE {})
     IN IF ev.api = "conc-end" THEN (IF ev.count # 0 THEN {V("C13.locked", "world locked after all goroutines finished")} ELSE {})
-       ELSE IF ~FilterOK(w, flt) \/ ~TargetsOK(w, FltTargets(flt)) THEN {}
+       ELSE IF ~FilterOK(w, flt) THEN {}
+       \* a filter naming a removed entity as target: rejected, or it selects nothing - never the entities related to
+       \* whatever lives under the recycled id now (S = {}: no alive entity has a dead target)
+       ELSE IF ~TargetsOK(w, FltTargets(flt))
+            THEN (IF ev.api \in {"conc", "conc-end"} \/ ev.panic THEN {} ELSE vExtra \cup vCount)
        ELSE IF ev.api = "conc" THEN concV
        ELSE vMissing \cup vExtra \cup vDupl \cup vData \cup vCount \cup vAt \cup vPanic \cup vTwin
 
